@@ -949,17 +949,14 @@ fn miri_cut(plan: Vec<Planned>) -> Vec<Planned> {
     if !crate::driver::MIRI_PLANS.load(Ordering::Relaxed) {
         return plan;
     }
-    let mut seen: Vec<(String, &'static str)> = Vec::new();
-    let mut out = Vec::new();
+    let mut out: Vec<Planned> = Vec::new();
     for p in plan {
         if p.sc.faults.iter().any(|f| f.kind == FaultKind::Rendezvous) {
             continue;
         }
-        let key = (serde_json::to_string(&p.sc).unwrap(), p.mode);
-        if seen.contains(&key) {
+        if out.iter().any(|q| q.mode == p.mode && q.sc == p.sc) {
             continue;
         }
-        seen.push(key);
         out.push(p);
         if out.len() >= 3 {
             break;
@@ -998,7 +995,9 @@ pub fn explore(prop: &str, seed: u64, thorough: bool, st: &mut Stats) -> Vec<Rep
             break;
         }
         let has_rdv = p.sc.faults.iter().any(|f| f.kind == FaultKind::Rendezvous);
-        *CUR.lock().unwrap() = Some((serde_json::to_value(&p.sc).unwrap(), p.mode.to_string(), p.strat.clone(), p.rs, seed, has_rdv));
+        if !crate::driver::MIRI_PLANS.load(Ordering::Relaxed) {
+            *CUR.lock().unwrap() = Some((serde_json::to_value(&p.sc).unwrap(), p.mode.to_string(), p.strat.clone(), p.rs, seed, has_rdv));
+        }
         // the pool is part of the built dispatcher: a variant with another pool gets its own
         let mut own;
         // and a run with an injected panic starts from a fresh dispatcher, so that every record
